@@ -84,12 +84,24 @@ def gen(tier, rng):
             yield {"kind": "chain", "n": n, "limit": limit, "final": "ok"}
             if n % 2 == 0:
                 yield {"kind": "chain", "n": n, "limit": limit, "final": "bad"}
+            if n in (1, 2) and limit >= n:
+                # subprotocols offered: the final response of a redirect chain must select one of them, exactly as a direct one must
+                yield {"kind": "chain", "n": n, "limit": limit, "final": "ok", "subs": ["chat", "v2"], "selected": None}
+                yield {"kind": "chain", "n": n, "limit": limit, "final": "ok", "subs": ["chat", "v2"], "selected": b"other"}
+                yield {"kind": "chain", "n": n, "limit": limit, "final": "ok", "subs": ["chat", "v2"], "selected": b"v2"}
     # 5. end of stream / timeout at every byte of a good response and of a redirect
     resp = head(101, good)
     for i in range(len(resp)):
         yield {"kind": "cut", "at": i, "how": "eof"}
         if tier != "quick" or i % 3 == 0:
             yield {"kind": "cut", "at": i, "how": "timeout"}
+    # 7. several response heads in one stream: the response is the FIRST head; headers of one head never count for another
+    good_hdrs = b"Upgrade: websocket\r\nConnection: Upgrade\r\nSec-WebSocket-Accept: " + accept_for(key) + b"\r\n"
+    for interim in (b"100 Continue", b"102 Processing", b"103 Early Hints", b"199 X"):
+        yield {"kind": "raw", "bytes": b"HTTP/1.1 " + interim + b"\r\n" + good_hdrs + b"\r\nHTTP/1.1 101 Switching Protocols\r\n\r\n", "expect_connected": False}
+        yield {"kind": "raw", "bytes": b"HTTP/1.1 " + interim + b"\r\n" + good_hdrs + b"Sec-WebSocket-Protocol: chat\r\n\r\nHTTP/1.1 101 SP\r\nUpgrade: websocket\r\nConnection: Upgrade\r\n\r\n", "expect_connected": False}
+        yield {"kind": "raw", "bytes": b"HTTP/1.1 " + interim + b"\r\n\r\nHTTP/1.1 101 SP\r\n" + good_hdrs + b"\r\n", "expect_connected": False}
+    yield {"kind": "raw", "bytes": b"HTTP/1.1 101 SP\r\n" + good_hdrs + b"\r\nHTTP/1.1 500 Late\r\n\r\n", "expect_connected": True}
     # 6. random mixtures
     for _ in range(600 if tier == "quick" else 5000):
         hs = rng.choice(list(variants(key)))
@@ -121,8 +133,12 @@ def build(sc):
             net.append({"addrs": ["A"], "script": [["D", head(302 if i % 2 else 301, [(b"Location", b"ws://h%d.test/p" % i)]).hex()]]})
         k = key_of(DRAWS[sc["n"]])
         acc = accept_for(k) if sc["final"] == "ok" else accept_for(b"wrong")
-        net.append({"addrs": ["A"], "script": [["D", head(101, good + [(b"Sec-WebSocket-Accept", acc)]).hex()]]})
-        return {"url": "ws://sim.test/start", "rand": DRAWS, "net": net, "limit": sc["limit"]}
+        final_hs = good + [(b"Sec-WebSocket-Accept", acc)] + ([(b"Sec-WebSocket-Protocol", sc["selected"])] if sc.get("selected") else [])
+        net.append({"addrs": ["A"], "script": [["D", head(101, final_hs).hex()]]})
+        return {"url": "ws://sim.test/start", "rand": DRAWS, "net": net, "limit": sc["limit"],
+                "opts": ({"subprotocols": sc["subs"]} if sc.get("subs") else {})}
+    if sc["kind"] == "raw":
+        return {"url": "ws://sim.test/", "rand": DRAWS[:1], "net": [{"addrs": ["A"], "script": [["D", sc["bytes"].hex()]]}]}
     if sc["kind"] == "cut":
         resp = head(101, good + [(b"Sec-WebSocket-Accept", accept_for(key))])
         part = resp[:sc["at"]]
@@ -167,11 +183,15 @@ def run(ctx):
                     T.fail("spec", pub, "connected", line[:200], {"site": "connect", "cls": "rejected-valid-response"})
         if c["kind"] == "chain":
             nreq = len(info["requests"])
-            should = c["n"] <= c["limit"] and c["final"] == "ok"
+            should = c["n"] <= c["limit"] and c["final"] == "ok" and (not c.get("subs") or (c.get("selected") or b"").decode().lower() in [x.lower() for x in c["subs"]])
             if ok != should or nreq > c["limit"] + 1:
                 T.fail("spec", pub, f"connected={should}, at most {c['limit'] + 1} requests", f"{line[:120]} requests={nreq}",
                        {"site": "connect", "cls": "redirect-handling", "over": c["n"] > c["limit"]},
                        what="redirects are followed at most redirect_limit times and are never success")
+        if c["kind"] == "raw" and ok != c["expect_connected"]:
+            T.fail("spec", {"case": {"kind": "raw", "bytes": c["bytes"].decode("latin-1")}}, f"connected={c['expect_connected']}", line[:200],
+                   {"site": "connect", "cls": "accepted-invalid-response" if ok else "rejected-valid-response", "multi_head": True},
+                   what="with several response heads in the stream, the answer to the handshake is the first head alone")
         if c["kind"] == "cut" and ok:
             T.fail("spec", pub, "connect() raises on a truncated response", line[:200], {"site": "connect", "cls": "truncated-accepted"})
         # (b) failure is clean
